@@ -407,6 +407,19 @@ fn typed_vs_generic(ck: &mut Ck, s: &str) {
     // C08: the typed parser relates to the type-agnostic one as the rules say
     let g = GenericPurl::<String>::from_str(s);
     let t = Purl::from_str(s);
+    // the type is taken from the text as written (never percent-decoded): whatever is accepted carries the ASCII-lower-cased raw type substring
+    if let Some(raw) = raw_split(s) {
+        if let Ok(g) = &g {
+            if g.package_type().as_str() != raw.ty.to_ascii_lowercase() {
+                ck.fail("C02", format!("{:?}: type {:?} is not the lower-cased type substring {:?}", s, g.package_type(), raw.ty));
+            }
+        }
+        if let Ok(t) = &t {
+            if t.package_type().name() != raw.ty.to_ascii_lowercase() {
+                ck.fail("C15", format!("{:?}: taken for {} although the type substring is {:?}", s, t.package_type().name(), raw.ty));
+            }
+        }
+    }
     if let Ok(g) = &g {
         let ty = g.package_type().as_str();
         let known = ["cargo", "gem", "golang", "maven", "npm", "nuget", "pypi"].contains(&ty);
@@ -465,6 +478,36 @@ fn c13(ck: &mut Ck, a: &[&str]) {
     }
 }
 
+/// reference: the canonical text of the typed checksum made by a sequence of Checksum operations (entries by lower-cased algorithm, sorted,
+/// lower-case hex); None when an entry is not an even number of hex digits
+fn ref_cs_text(ops: &str) -> Option<String> {
+    let mut m: BTreeMap<String, String> = BTreeMap::new();
+    if ops != "-" {
+        for op in ops.split('+') {
+            let g: Vec<&str> = op.split('.').collect();
+            match g[0] {
+                "i" => {
+                    m.insert(spec_lower(&uh(g[1])), hex::encode(uhb(g[2])));
+                },
+                "w" => {
+                    m.insert(spec_lower(&uh(g[1])), uh(g[2]));
+                },
+                "r" => {
+                    m.remove(&uh(g[1]));
+                },
+                _ => {},
+            }
+        }
+    }
+    let mut parts = vec![];
+    for (k, v) in &m {
+        if v.len() % 2 != 0 || !v.bytes().all(|b| b.is_ascii_hexdigit()) {
+            return None;
+        }
+        parts.push(format!("{}:{}", k, v.to_ascii_lowercase()));
+    }
+    Some(parts.join(","))
+}
 // reference interpretation of a builder op sequence (C09): last write wins, field by field
 struct RefB {
     ty: String,
@@ -504,35 +547,14 @@ fn ref_builder(a: &[&str], typed: bool) -> RefB {
                 r.q.remove(&uh(f[1]).to_ascii_lowercase());
             },
             "z" => r.q.clear(),
-            "C" => {
-                // reference: the typed checksum's canonical text (entries by lower-cased algorithm)
-                let mut m: BTreeMap<String, String> = BTreeMap::new();
-                if f[1] != "-" {
-                    for op in f[1].split('+') {
-                        let g: Vec<&str> = op.split('.').collect();
-                        match g[0] {
-                            "i" => {
-                                m.insert(spec_lower(&uh(g[1])), hex::encode(uhb(g[2])));
-                            },
-                            "w" => {
-                                m.insert(spec_lower(&uh(g[1])), uh(g[2]));
-                            },
-                            "r" => {
-                                m.remove(&uh(g[1]));
-                            },
-                            _ => {},
-                        }
-                    }
-                }
-                let mut parts = vec![];
-                for (k, v) in &m {
-                    if v.len() % 2 != 0 || !v.bytes().all(|b| b.is_ascii_hexdigit()) {
-                        r.stop = Some("CE");
-                        return r;
-                    }
-                    parts.push(format!("{}:{}", k, v.to_ascii_lowercase()));
-                }
-                r.q.insert("checksum".into(), parts.join(","));
+            "C" => match ref_cs_text(f[1]) {
+                Some(t) => {
+                    r.q.insert("checksum".into(), t);
+                },
+                None => {
+                    r.stop = Some("CE");
+                    return r;
+                },
             },
             "c" => {
                 r.q.remove("checksum");
@@ -542,6 +564,12 @@ fn ref_builder(a: &[&str], typed: bool) -> RefB {
             },
             "r" => {
                 r.q.remove("repository_url");
+            },
+            "W" => {
+                r.q.insert(["buildtag", "x-y.z_1", "?"][f[1].parse::<usize>().unwrap().min(2)].into(), uh(f[2]));
+            },
+            "w" => {
+                r.q.remove(["buildtag", "x-y.z_1", "?"][f[1].parse::<usize>().unwrap().min(2)]);
             },
             _ => {},
         }
@@ -623,6 +651,9 @@ fn c09<K: Kind>(ck: &mut Ck, a: &[&str], made: &Made<K::T>, typed: bool) {
 }
 
 fn purl_case_oracles(ck: &mut Ck, a: &[&str]) {
+    if a[0] == "B" && a.len() > 4 && a[4].split(',').any(|o| o.starts_with("W:2:")) {
+        return; // insert_typed with an invalid declared KEY: the documented panic; the outcome is compared with the model by the correspondence
+    }
     match a[1] {
         "g" => {
             c13(ck, a);
@@ -859,13 +890,15 @@ fn q_oracle(ck: &mut Ck, spec: &str) {
                 m.remove("repository_url");
                 "u".into()
             },
-            "tC" | "tG" | "ke" => {
-                // checked by correspondence with the model (C12); keep the reference in step
-                if f[0] == "tC" && outs[i] == "u" {
-                    m.insert("checksum".into(), q_get_after(spec, i));
-                }
-                outs[i].clone()
+            "tC" => match ref_cs_text(f[1]) {
+                // try_insert_typed: the canonical text replaces whatever the key held; a malformed checksum changes nothing
+                Some(t) => {
+                    m.insert("checksum".into(), t);
+                    "u".into()
+                },
+                None => "e".into(),
             },
+            "tG" | "ke" => outs[i].clone(), // checked by correspondence with the model (C12)
             _ => outs[i].clone(),
         };
         if want != outs[i] {
@@ -1205,6 +1238,25 @@ fn j_oracle(ck: &mut Ck, a: &[&str]) {
         } else if let (Ok(a), Ok(b), Ok(c)) = (&de, &de_text, &de_reader) {
             ck.req("C16", a == b && a == c, "from_value / from_str / from_reader give different PURLs");
         }
+        // values of the serde data model that are not strings, handed to Deserialize directly (serde_json has no byte-array value)
+        if let Some(txt) = v.as_str() {
+            use serde::de::value::{BorrowedBytesDeserializer, BytesDeserializer, Error as VE, SeqDeserializer, U64Deserializer, UnitDeserializer, BoolDeserializer, StrDeserializer, StringDeserializer, BorrowedStrDeserializer};
+            use serde::Deserialize;
+            let by = GenericPurl::<K::T>::deserialize(BytesDeserializer::<VE>::new(txt.as_bytes()));
+            let bb = GenericPurl::<K::T>::deserialize(BorrowedBytesDeserializer::<VE>::new(txt.as_bytes()));
+            ck.req("C16", by.is_err() && bb.is_err(), "a byte-array value deserialises to a PURL");
+            let sq = GenericPurl::<K::T>::deserialize(SeqDeserializer::<_, VE>::new(txt.bytes()));
+            ck.req("C16", sq.is_err(), "a sequence value deserialises to a PURL");
+            ck.req("C16", GenericPurl::<K::T>::deserialize(U64Deserializer::<VE>::new(txt.len() as u64)).is_err(), "an integer value deserialises to a PURL");
+            ck.req("C16", GenericPurl::<K::T>::deserialize(UnitDeserializer::<VE>::new()).is_err(), "a unit value deserialises to a PURL");
+            ck.req("C16", GenericPurl::<K::T>::deserialize(BoolDeserializer::<VE>::new(true)).is_err(), "a bool value deserialises to a PURL");
+            // the three string flavours of the data model give what from_str gives
+            let want = K::parse(txt).unwrap().ok();
+            let s1 = GenericPurl::<K::T>::deserialize(StrDeserializer::<VE>::new(txt)).ok();
+            let s2 = GenericPurl::<K::T>::deserialize(StringDeserializer::<VE>::new(txt.to_string())).ok();
+            let s3 = GenericPurl::<K::T>::deserialize(BorrowedStrDeserializer::<VE>::new(txt)).ok();
+            ck.req("C16", s1 == want && s2 == want && s3 == want, "a transient / owned / borrowed string value does not deserialise to what from_str gives");
+        }
         match v.as_str() {
             None => ck.req("C16", de.is_err(), "a non-string JSON value deserialises to a PURL"),
             Some(s) => {
@@ -1236,7 +1288,10 @@ pub fn check(line: &str) -> String {
     let mut ck = Ck(vec![]);
     // C06: no panic on the plain run of the case, except the documented ones (encoded as PANIC op outcomes / `!`)
     let r = catch_unwind(AssertUnwindSafe(|| run(line)));
+    // documented panic #2 reached through the builder: with_typed_qualifier(Some(..)) of a user type whose KEY is not a valid key
+    let documented = a[0] == "B" && a.len() > 4 && a[4].split(',').any(|o| o.starts_with("W:2:"));
     match &r {
+        Err(_) if documented => {},
         Err(_) => ck.fail("C06", "panic"),
         Ok(l) => {
             if a[0] == "C" || a[0] == "c" {
